@@ -9,9 +9,9 @@
 //!   OffsetArc, ArcUnion (both arms), ArcBorrow, UniqueArc conversions and clones made inside
 //!   with_arc-style callbacks must record EXACTLY the event sequence of the corresponding Arc
 //!   operation run in the same harness (differential: today's orderings are not hard-coded).
-//! ASSUME: core::sync::atomic::{atomic_add, atomic_sub, atomic_load, atomic_compare_exchange, fence} replaced by recording
+//! ASSUME: core::sync::atomic::{atomic_add, atomic_sub, atomic_load, atomic_compare_exchange, atomic_store, fence} replaced by recording
 //!   stubs that perform the plain operation (Kani is sequential); alloc/dealloc logging stubs.
-//! OUTSIDE: atomics reached through other core entry points (compare_exchange_weak, swap, store: a
+//! OUTSIDE: atomics reached through other core entry points (compare_exchange_weak, swap: a
 //!   use of those in /repo shows up in Engine W's counter-access scan instead).
 use crate::ghost::*;
 use crate::kinds::*;
@@ -23,7 +23,7 @@ include!("c02_expected.rs");
 
 #[derive(Clone, Copy, PartialEq)]
 pub struct AEv {
-    pub kind: u8, // 1 add, 2 sub, 3 load, 4 fence, 5 compare-exchange succeeded (operand = new value), 6 failed
+    pub kind: u8, // 1 add, 2 sub, 3 load, 4 fence, 5 compare-exchange succeeded (operand = new value), 6 failed, 7 store (operand = value)
     pub ord: u8,
     pub operand: usize,
 }
@@ -83,6 +83,12 @@ pub unsafe fn cas_stub<T: Copy>(dst: *mut T, old: T, new: T, success: Ordering, 
         Err(transmute_copy(&cur))
     }
 }
+pub unsafe fn store_stub<T: Copy, const B: bool>(dst: *mut T, val: T, order: Ordering) {
+    assert!(core::mem::size_of::<T>() == 8);
+    let v: usize = transmute_copy(&val);
+    rec(7, order, v, dst as usize);
+    *(dst as *mut usize) = v;
+}
 pub fn fence_stub(order: Ordering) {
     unsafe { rec(4, order, 0, 0) };
 }
@@ -120,6 +126,7 @@ macro_rules! h {
         #[kani::stub(core::sync::atomic::atomic_load, load_stub)]
         #[kani::stub(core::sync::atomic::fence, fence_stub)]
         #[kani::stub(core::sync::atomic::atomic_compare_exchange, cas_stub)]
+        #[kani::stub(core::sync::atomic::atomic_store, store_stub)]
         fn $name() {
             crate::ghost::arm();
             $body
